@@ -22,7 +22,7 @@ ALPHA = [
     "a +", "stel c = 1; onbekend", "a = a + 10; 1 / 0", "als a > 1 { a = 0 } anders { stop }", "c",
     "stel s = \"x\"; lengte(s)", "functie g() { a }", "g()", "stel t = [a]; a",
 ]
-EXTRA = ["b = a * b", "a == b", "stel d = a; stel d = d + 1; d", "{ stel a = 99 } a", "!(a < b)", "a = ja; a", "zolang nee { } a", "stel k = ) ", "1 +* 2",
+EXTRA = ["functie d(n) { als n < 1 { antwoord 0 } 1 + d(n - 1) } d(200)", "b = a * b", "a == b", "stel d = a; stel d = d + 1; d", "{ stel a = 99 } a", "!(a < b)", "a = ja; a", "zolang nee { } a", "stel k = ) ", "1 +* 2",
          "a = a + 1; a = a + 1; ja + 1", "b", "print(\"{}\", a)", "2.5", "als a { 1 }", "functie h(n) { als n < 1 { antwoord 0 } n + h(n - 1) } h(a)"]
 HEAPY = re.compile(r"\"|\[|\d\.\d")
 
@@ -84,6 +84,7 @@ def run(ctx, log):
         sessions.append([rng.choice(pool) for _ in range(rng.randint(4, 12))])
     sessions += [["1 / 0; stel c = 5", "c"], ["stel a = 1", "a = 2; [1][3]; stel d = a", "d"], ["stel c = 1 / 0", "c"], ["stel a = 1", "a = 7; ja + 1", "a"]]
     budgets = [100000] * len(sessions)
+    scalar_alpha_pre = ["stel a = 1", "stel b = a + 1", "a = a + 1", "a + b", "stel a = 5; a", "a == b", "stel d = a; stel d = d + 1; d"]
     # every abort point k for a sample of sessions (the line is cut short after k instructions)
     scalar_alpha = [l for l in pool if not HEAPY.search(l) and "functie g" not in l and l != "g()"]
     for _ in range(40 if ctx.quick else 400):
@@ -91,6 +92,22 @@ def run(ctx, log):
         for k in range(0, 45):
             sessions.append(s)
             budgets.append(k)
+    # a line that fails deep inside the machine (runaway recursion up to the stack / frame limits, too deep for the
+    # Coq side) must not influence later lines: the session with it and the session without it agree on the others
+    big_fail = ["functie r(n) { r(n + 1) } r(0)", "functie r(n, m) { stel x = n; 1 + r(n + 1, m) } r(0, 0)", "functie r(n) { [n, r(n + 1)] } r(0)"]
+    for bf in big_fail:
+        for _ in range(6 if ctx.quick else 60):
+            pre = [rng.choice(scalar_alpha_pre) for _ in range(rng.randint(1, 3))]
+            post = [rng.choice(scalar_alpha_pre + ["functie k(n) { n + a } k(2)", "functie s(n) { als n < 1 { antwoord 0 } n + s(n - 1) } s(100)"]) for _ in range(rng.randint(2, 4))]
+            with_f = vlib.nlh("session", ["10000000 " + " ".join(vlib.hexs(l) for l in pre + [bf] + post)], tag="c17d", timeout=120)[0]
+            without = vlib.nlh("session", ["10000000 " + " ".join(vlib.hexs(l) for l in pre + post)], tag="c17d", timeout=120)[0]
+            a = [x.strip() for x in with_f.split(" ;; ") if x.strip()]
+            b = [x.strip() for x in without.split(" ;; ") if x.strip()]
+            ctx.seen(("deep-failure", tuple(pre), bf, tuple(post)))
+            ctx.count("deep-failure-sessions")
+            strip = lambda x: re.sub(r" ST .*$", "", x)
+            if len(a) != len(b) + 1 or [strip(x) for x in a[:len(pre)] + a[len(pre) + 1:]] != [strip(x) for x in b]:
+                ctx.violate("a line that failed deep inside a recursion changed what later lines of the session produce", session=pre + [bf] + post, observed=with_f[:600], expected=without[:600])
     lines = ["%d %s" % (b, " ".join(vlib.hexs(l) if l else "-" for l in s)) for s, b in zip(sessions, budgets)]
     obs = vlib.nlh("session", lines, tag="c17", timeout=300)
     log("%d sessions (%d enumerated completely)" % (len(sessions), n_exh))
